@@ -10,6 +10,7 @@ void sk_reset(void);
 void sk_attach(int client_fd, int peer_fd);
 void sk_detach_client(void);
 void sk_set_outcome(int kind, long k);
+void sk_get_outcome(int* kind, long* k);
 void sk_arm_event(int mode, unsigned native);
 void sk_disarm_event(void);
 void sk_peer_drain(void);
